@@ -232,7 +232,7 @@ func cmdCheck(args []string) int {
 	var toSolve []*Obligation
 	skipped := map[*Obligation]bool{}
 	for _, o := range obs {
-		if *noClaims || *writeClaims || *tier == "thorough" || claims.Has(o.Name) || isKnownName(*verif, *prop, o.Name) {
+		if *noClaims || *writeClaims || *tier == "thorough" || claims.Has(o.Name) || (o.Alt != "" && claims.Has(o.Alt)) || isKnownName(*verif, *prop, o.Name) {
 			toSolve = append(toSolve, o)
 		} else {
 			skipped[o] = true
